@@ -149,7 +149,8 @@ def proxy_contracts(w, PROP):
         body = SV(ValS, z3.Const(fresh_name('answer_body'), Val))
         gset(ex, 'cm_body', body)
         return STup([SStr(['#RETURN', '', '#ERROR', '#TRACEBACK', '#UNSERIALIZABLE', '#OTHER'][k]), body])
-    w.cls('ConnP', fields={}, methods={'send': cm_send, 'recv': cm_recv})
+    w.cls('ConnP', fields={}, methods={'send': cm_send, 'recv': cm_recv,
+                                       'close': w.classes['TlsConn'].methods['close']})
     w.classes['Tls'].fields['connection'] = ref('ConnP')
 
     def cm_call(ex, args, kw):
